@@ -144,6 +144,45 @@ func properties() map[string]*PropertyDef {
 		LevelNote:   "assumed: idna.ToASCII deterministic; strings.Cut/HasPrefix, UTF-8 range contract; trusted: go/ssa lowering, govc encoding, solvers",
 		Technique:   "contract-based deductive verification (govc): recursive grammar spec functions, loop invariants, induction lemmas, WP over go/ssa, z3/cvc5",
 	})
+	ps = append(ps, &PropertyDef{
+		ID:       "C11",
+		Patterns: []string{"./container"},
+		Funcs: []string{
+			"container.NewRingBuffer", "container.(*RingBuffer).Push", "container.(*RingBuffer).Len", "container.(*RingBuffer).Current",
+			"container.(*RingBuffer).Clear", "container.(*RingBuffer).splitCur", "container.(*RingBuffer).Range", "container.(*RingBuffer).ReverseRange",
+			"container.NewSortedSliceSet", "container.(*SortedSliceSet).Add", "container.(*SortedSliceSet).Delete", "container.(*SortedSliceSet).Has",
+			"container.(*SortedSliceSet).Len", "container.(*SortedSliceSet).Values", "container.(*SortedSliceSet).Clear", "container.(*SortedSliceSet).Equal",
+			"container.(*SortedSliceSet).Clone", "container.(*SortedSliceSet).Range",
+			"container.NewMapSet", "container.(*MapSet).Add", "container.(*MapSet).Delete", "container.(*MapSet).Clear", "container.(*MapSet).Has",
+			"container.(*MapSet).Len", "container.(*MapSet).Clone", "container.(*MapSet).Equal", "container.(*MapSet).Range", "container.(*MapSet).Values",
+		},
+		Lemmas: []string{"insertSet", "deleteSet", "sameSeqSameSet"},
+		NeedsClauses: map[string][]string{
+			"container.(*RingBuffer).Push":    {"inv", "grows", "fills", "slides", "zero_capacity"},
+			"container.(*RingBuffer).Clear":   {"as_new"},
+			"container.(*RingBuffer).Current": {"nil_or_empty", "oldest_when_full", "zero_when_not_full"},
+			"container.(*RingBuffer).Range":   {"oldest_first", "stops_only_on_false"},
+			"container.(*RingBuffer).ReverseRange": {"newest_first", "stops_only_on_false"},
+			"container.(*SortedSliceSet).Add":    {"inv", "keeps_old", "has_v", "only_v_new", "present_unchanged"},
+			"container.(*SortedSliceSet).Delete": {"inv", "only_old", "keeps_others", "v_gone", "absent_unchanged"},
+			"container.(*SortedSliceSet).Has":    {"member"},
+			"container.(*SortedSliceSet).Clone":  {"own_storage", "origin_unchanged", "inv"},
+			"container.(*MapSet).Add":   {"members"}, "container.(*MapSet).Delete": {"members"}, "container.(*MapSet).Has": {"member"},
+			"container.(*MapSet).Clone": {"independent", "members", "origin_unchanged"},
+			"container.(*MapSet).Values": {"only_members", "all_members"}, "container.(*MapSet).Range": {"only_members", "distinct"},
+		},
+		Assumptions: []string{
+			"element types are abstract values; for SortedSliceSet a strict total order (NaN excluded); the zero value of T is a distinguished value",
+			"slices.BinarySearch/Insert/Delete/Sort/Compact/Clone/Equal, maps.Clone/Equal and the builtins append/clear/delete by their documented meaning (specs/slices.spec, specs/misc.spec)",
+			"callbacks passed to Range are pure and deterministic; map iteration yields every key exactly once in an arbitrary order",
+			"NOT decided: that NewSortedSliceSet / SortedSliceSet.Clone keep exactly the given members (a two-step existential chain through the assumed Sort and Compact contracts that the solvers do not close); MapSet.Values being duplicate-free; MapSet.Equal for two non-nil sets beyond the assumed maps.Equal contract",
+			"per-call two-state postconditions plus the object invariants give the history-level statement by induction over the operation sequence (not mechanised)",
+		},
+		Explanation: "object invariants (ring well-formedness incl. zeroed unfilled slots; strictly ascending slice) and two-state postconditions against abstract views; Range/ReverseRange against a ghost log of the callback calls; set-level facts in index form with pure lemmas (insertSet, deleteSet) applied as lemma calls",
+		LevelText:   "proof: each operation of RingBuffer, SortedSliceSet and MapSet re-establishes its invariant and changes the abstract view exactly as the set / ring model says, for every state satisfying the invariant and every argument; iteration order and early termination are proved against the callback log",
+		LevelNote:   "assumed library contracts (slices, maps, builtins); undecided clauses listed under assumptions; trusted: go/ssa lowering of generic bodies, govc encoding, solvers",
+		Technique:   "contract-based deductive verification (govc): object invariants + two-state postconditions on generic code, ghost callback log, lemma calls, WP over go/ssa, z3/cvc5",
+	})
 	out := map[string]*PropertyDef{}
 	for _, p := range ps {
 		out[p.ID] = p
